@@ -6,14 +6,13 @@ From KV Require Import Lib.Bytes Lib.Swar Model.Headers Model.Parser Spec.HttpGr
 Lemma pc_drop_ows ows : forall value,
   forallb is_ows ows = true -> forallb is_field_vchar value = true ->
   match value with b :: _ => negb (is_ows b) | [] => true end = true ->
-  drop_while is_ascii_ws (ows ++ value) = value.
+  drop_while is_ows (ows ++ value) = value.
 Proof.
   induction ows as [|o ows IH]; intros value Ho Hv Hh.
   - cbn [app]. destruct value as [|b v]; [reflexivity|].
-    cbn [drop_while]. cbn [forallb] in Hv. apply andb_true_iff in Hv. destruct Hv as [Hb _].
-    rewrite (pc_fv_ws b Hb Hh). reflexivity.
+    cbn [drop_while]. apply negb_true_iff in Hh. rewrite Hh. reflexivity.
   - cbn [forallb] in Ho. apply andb_true_iff in Ho. destruct Ho as [Ho1 Ho].
-    cbn [app drop_while]. rewrite (pc_ows_ws o Ho1). apply IH; assumption.
+    cbn [app drop_while]. rewrite Ho1. apply IH; assumption.
 Qed.
 
 Lemma pc_header_line f :
